@@ -545,10 +545,29 @@ def c10_model_depth4(res):
                 cases.append('\t'.join(['position fen %s moves %s' % (r, h), 'go depth %d' % d]))
     impl = V.run_impl('session', cases)
     model = V.run_model('session', cases)
+    # repetition-aware reference minimax (no table, no heuristics): the statement of C10 made executable
+    rcases = []
+    for c in cases:
+        pos, go = c.split('\t')
+        fen, mv = pos[len('position fen '):].split(' moves ')
+        rcases.append('%s\t%s\t%s' % (fen, mv, go.split()[-1]))
+    ref = V.run_impl('refsearchhist', rcases, release=True)
     res.count('session-model-history-depth4', cases)
-    for c, i, m in zip(cases, impl, model):
-        if gen_session.normalise(i) != m:
-            res.tie_break('session', c, m[-500:], gen_session.normalise(i)[-500:])
+    def final_score(text):
+        ss = [parse_info(l).get('score') for l in text.split(' ;; ') if l.startswith('info') and ' pv ' in l]
+        ss = [' '.join(s) for s in ss if s]
+        return ss[-1] if ss else None
+    for c, i, m, r in zip(cases, impl, model, ref):
+        ni = gen_session.normalise(i)
+        rs = r.split(' | ')[1] if ' | ' in r else None
+        si, sm = final_score(i), final_score(m)
+        if rs is not None and sm is not None and sm == rs and si != rs:
+            res.violation('session', c, 'score ' + rs, 'score %s' % si, 'property',
+                          'a line through repeated positions is not valued as the repetition-aware minimax prescribes (reference and Coq model agree, implementation differs)')
+        elif ni != m:
+            res.tie_break('session', c, m[-500:], ni[-500:])
+        elif rs is not None and sm != rs:
+            res.notes.append('depth-4 repetition session: model = implementation = %s but history-aware reference = %s (transposition-table effect); not reported' % (sm, rs))
 
 def c11(res, ctx):
     rng = random.Random(res.seed)
